@@ -97,6 +97,23 @@ def partition_rule(ctx, d1, d2):
             st = [e for e in mat if e.target == '%s.imol[%s]' % (bottom, IDs) and e.value != Form.atom('%s.imol[%s]' % (feed, IDs))]
             if st:
                 clamp_ok = False
+    # top = feed - bottom is a balance only if everything in `bottom` was put there by THIS call: on every path a whole-content
+    # write of bottom (bottom.mol[:] = ..., bottom.empty(), bottom.copy_like(...)) must precede the complement
+    stale = None
+    for p in ps:
+        if p.raised:
+            continue
+        evs = p.events
+        last = [i for i, e in enumerate(evs) if e.kind == 'store' and e.target == '%s.mol[::]' % top]
+        whole = [i for i, e in enumerate(evs) if (e.kind == 'store' and e.target in ('%s.mol[::]' % bottom, '%s.imol[::]' % bottom, '%s.imol.data[::]' % bottom))
+                 or (e.kind == 'call' and e.target in ('%s.empty' % bottom, '%s.copy_like' % bottom, '%s.mol.clear' % bottom))]
+        if last and not (whole and whole[0] < last[-1]):
+            stale = evs[last[-1]]
+    if stale is not None:
+        d1.fail('partition', 'bottom-not-reset', 'the top outlet is feed - bottom, but on some path bottom is never written as a whole before that: flows left in a reused '
+                'bottom stream (all of them when the phase fraction is 1) are subtracted from the new feed', f, stale.stmt)
+    else:
+        d1.ok('partition', 'bottom is written as a whole before top = feed - bottom on every path', f)
     if bad:
         d1.fail('partition', 'complement-not-last', bad, f, f.node)
     else:
